@@ -124,11 +124,16 @@ def dropDup : List Row → List Row
   | [] => []
   | r :: t => r :: (dropDup t).filter (fun x => x ≠ r)
 
-/-- the tempo step function: tempo rows ++ rows at the first / last stacked offset without a value, sorted by
-offset, forward- then backward-filled, duplicates dropped -/
-def bpmFrame (bpms : List Tp) (omin omax : Rat) : List Row :=
-  dropDup (bfill (ffill (sortRow
-    (bpms.map (fun p => (p.time, some p.bpm)) ++ [omin, omax].zip headTailBpm))))
+/-- rows of the tempo frame in `pd.concat` order: the tempo points, then the rows at the first / last stacked
+offset without a value -/
+def bpmRows (bpms : List Tp) (omin omax : Rat) : List Row :=
+  bpms.map (fun p => (p.time, some p.bpm)) ++ [omin, omax].zip headTailBpm
+
+/-- what happens to the frame once it is sorted: `.ffill().bfill().drop_duplicates()` -/
+def bpmFrameOf (sorted : List Row) : List Row := dropDup (bfill (ffill sorted))
+
+/-- the tempo step function (`sort_values("offset")` modelled as the stable sort) -/
+def bpmFrame (bpms : List Tp) (omin omax : Rat) : List Row := bpmFrameOf (sortRow (bpmRows bpms omin omax))
 
 /-- last non-null value, `GroupBy.last` -/
 def lastSome : List (Option Rat) → Option Rat
